@@ -74,26 +74,20 @@ func checkTextListing(text string, m *asmModel, cur []byte) string {
 		li++
 		return lines[li-1], true
 	}
-	// base directive: before the first item line, if a base was set
-	hasItemLines := false
-	for _, it := range m.items {
-		if it.kind != itData || len(it.bytes) > 0 {
-			hasItemLines = true
-		}
-	}
-	if m.baseSet && hasItemLines {
-		l, ok := next()
-		want := fmt.Sprintf("base $%06x", m.base)
-		if !ok || strings.TrimSpace(l) != want {
-			return fmt.Sprintf("listing line 1 is %q, want the base directive %q before anything else", l, want)
-		}
-	} else if len(lines) > 0 && strings.HasPrefix(strings.TrimSpace(lines[0]), "base ") {
-		if !m.baseSet {
-			return fmt.Sprintf("listing starts with %q but no base was set", lines[0])
-		}
-		li++
+	// base directive: owed to the first line-producing item issued after SetBase
+	pendingBase := m.baseSet
+	if !m.baseSet && len(lines) > 0 && strings.HasPrefix(strings.TrimSpace(lines[0]), "base ") {
+		return fmt.Sprintf("listing starts with %q but no base was set", lines[0])
 	}
 	for k, it := range m.items {
+		if pendingBase && k >= m.baseAt && (it.kind != itData || len(it.bytes) > 0) {
+			pendingBase = false
+			l, ok := next()
+			want := fmt.Sprintf("base $%06x", m.base)
+			if !ok || strings.TrimSpace(l) != want {
+				return fmt.Sprintf("listing line %d is %q, want the base directive %q before anything issued after SetBase", li, l, want)
+			}
+		}
 		switch it.kind {
 		case itLabel:
 			l, ok := next()
@@ -169,6 +163,9 @@ func checkTextListing(text string, m *asmModel, cur []byte) string {
 				covered += len(bs)
 			}
 		}
+	}
+	if pendingBase && li < len(lines) && strings.HasPrefix(strings.TrimSpace(lines[li]), "base ") {
+		li++ // nothing was issued after SetBase: a base line is tolerated, not required
 	}
 	if li != len(lines) {
 		return fmt.Sprintf("listing has %d extra line(s) starting with %q", len(lines)-li, lines[li])
@@ -281,6 +278,7 @@ func runC15(r *report.Run) {
 			variants = append(variants, v)
 		}
 	}
+	variants = append(variants, asmVariantsPre()...) // a comment or label issued before SetBase
 	hist, trans, _ := asmHistorySearch(depth, variants, func(v asmVariant, al []asmOp, idx []int) (string, string, int, *asmHistory) {
 		ops := make([]asmOp, len(idx))
 		for i, k := range idx {
@@ -335,7 +333,7 @@ func runC15(r *report.Run) {
 	r.Set("histories", hist)
 	r.Set("data_length_cases", nd)
 	r.Set("bounds", map[string]interface{}{"history_depth": depth, "alphabet": len(asmAlphabet()), "constructor_variants": len(variants), "data_lengths": fmt.Sprintf("0..%d", maxLen)})
-	r.Set("rule", "every call sequence up to the depth with listing generation on under every base variant, listings taken before and after Finalize: the hex listing's 0x??, tokens left of any // must concatenate to exactly Bytes(); the text listing is walked item by item against the reference model (base directive first, label/comment lines where issued, instruction lines with the true address and the bytes Bytes() holds there, data blocks covered contiguously exactly once); no error, no panic, Bytes() unchanged; plus a data-length sweep 0..N alone, next to instructions and in an exactly-sized buffer")
+	r.Set("rule", "every call sequence up to the depth with listing generation on under every base variant (base unset, four bases, and a comment or label issued before SetBase), listings taken before and after Finalize: the hex listing's 0x??, tokens left of any // must concatenate to exactly Bytes(); the text listing is walked item by item against the reference model (base directive before the first line issued after SetBase, label/comment lines where issued, instruction lines with the true address and the bytes Bytes() holds there, data blocks covered contiguously exactly once); no error, no panic, Bytes() unchanged; plus a data-length sweep 0..N alone, next to instructions and in an exactly-sized buffer")
 	r.Sample(asmHistory{Variant: variants[2], Ops: []string{"Label(a)", "EmitBytes(17)", "BNE(a)", "Comment(200 chars)"}, Capacity: 256})
 	r.Assume("the 16-per-line chunking of data blocks is not required, only contiguous exact coverage")
 }
